@@ -192,7 +192,16 @@ func C11(c *run.Ctx) {
 			ResponseTypes: world.AllResponseTypes, Scopes: []string{"openid", "offline", "fosite"}, ResponseModes: world.AllModes})
 		var reqs []string
 		for _, b := range set {
-			reqs = append(reqs, c11Mutations(b)...)
+			first := c11Mutations(b)
+			reqs = append(reqs, first...)
+			if !c.Quick() {
+				// thorough: mutations of mutations (case + port, userinfo + encoding, look-alike host + fragment, ...)
+				for _, m1 := range first {
+					if m1 != "" {
+						reqs = append(reqs, c11Mutations(m1)...)
+					}
+				}
+			}
 		}
 		// other pool members that are not registered for this client
 		for _, p := range c11Pool {
